@@ -1,7 +1,7 @@
 (* Property C17: all memory goes through the user's allocators and is released at finish.
    Only the property theorems, each closed by [exact] and followed by Print Assumptions. *)
 From Coq Require Import List NArith Bool.
-From MirV Require Import C19.Varr C17.Alloc C17.AllocProofs C17.VarrTrace.
+From MirV Require Import C19.Varr C17.Alloc C17.AllocProofs C17.VarrTrace C17.CodeHolder C17.CodeHolderProofs.
 
 (* The executable monitor that the check runs on the allocator-call traces of the real library
    accepts a trace exactly when the trace satisfies the contract of CUSTOM-ALLOCATORS.md stated
@@ -29,3 +29,20 @@ Theorem varr_traces_accepted :
     accepts (varr_trace esz dsz d init p ops qs) = true.
 Proof. exact varr_traces_accepted_lemma. Qed.
 Print Assumptions varr_traces_accepted.
+
+(* The code-holder layer (mir.c:4353-4507, model C17/CodeHolder.v, tied to the real functions by the
+   correspondence run): every operation's events are maps followed by at most one
+   protect-write / writes / protect-exec group on one range ... *)
+Theorem code_holder_ops_bracketed : forall s o, bracketed (snd (chstep s o)).
+Proof. exact code_holder_ops_bracketed_lemma. Qed.
+Print Assumptions code_holder_ops_bracketed.
+
+(* ... and for every script of publications (non-empty, below 2^31 bytes), in-place publications,
+   address queries, and patches lying inside already published code, followed by code_finish, the
+   emitted trace is accepted by the contract monitor: every write falls into its write window inside
+   the context's own mapped pages, and after code_finish no page remains mapped. *)
+Theorem code_holder_traces_accepted : forall ops,
+  ops_ok chs0 (ops ++ (FinishAll :: nil)) = true ->
+  accepts (chtrace chs0 (ops ++ (FinishAll :: nil)) ++ (Finish :: nil)) = true.
+Proof. exact code_holder_traces_accepted_lemma. Qed.
+Print Assumptions code_holder_traces_accepted.
